@@ -63,6 +63,11 @@ func SubstituteSlots(src []byte, slots map[string][]string, choose func(slot str
 		var out []byte
 		for _, line := range strings.Split(text, "\n") {
 			out = append(out, indent...)
+			if strings.HasPrefix(line, "//") {
+				// a menu line that is already a comment (a directive such as //go:generate) stands as written
+				out = append(out, []byte(line+"\n")...)
+				continue
+			}
 			out = append(out, []byte("// "+line+"\n")...)
 		}
 		return out
